@@ -244,7 +244,7 @@ class Taint:
                         for key, lb in list(self.t[src_path].items()):
                             if isinstance(key, tuple) and key[0] == 0 and 'p' not in s.dest:
                                 ch |= self._mark(fp, (s.dest['l'], key[1]), lb)
-            elif lab and re.search(r'::(map|filter_map|flat_map|and_then|map_while|find_map|scan|then|map_or|map_or_else|unwrap_or_else)$', s.callee) and len(s.args) >= 2:
+            elif re.search(r'::(map|filter_map|flat_map|and_then|map_while|find_map|scan|then|map_or|map_or_else|unwrap_or_else)$', s.callee) and len(s.args) >= 2 and (lab or any((lambda o_: o_[0] == 'rv' and o_[1].get('ak') == 'closure' and self.t.get(o_[1].get('def'), {}).get(0))(f.origin(a_)) for a_ in s.args[1:])):
                 # adaptor with a workspace closure: the elements that come out are what the closure returns, not what
                 # went in (`paths.iter().map(|p| self.resolve(p))` yields resolver results); the closure's parameters
                 # receive the label of the receiver's elements
@@ -254,7 +254,8 @@ class Taint:
                     if o[0] == 'rv' and o[1].get('ak') == 'closure' and o[1].get('def') in self.P.fns:
                         cl = self.P.fns[o[1]['def']]
                 if cl is None or not self.scope(cl):
-                    ch |= self._mark(fp, s.dest['l'], lab)
+                    if lab:
+                        ch |= self._mark(fp, s.dest['l'], lab)
                 else:
                     if labs[0]:
                         for pi in range(2, cl.argc + 1):
